@@ -444,7 +444,7 @@ def run_symbolic(harness, label="", max_paths=3000, budget_s=30.0, quick_ms=3000
                     rep.samples.append(dict(obligation=name, path_condition=[X.showb(b, 3) for b in p.pc[:4]],
                                             goal=X.showb(goal, 4)[:600], verdict="unsat"))
             elif r == "sat":
-                env = solve.model_env(tr, m, p.pc + [goal])
+                env = m if isinstance(m, dict) else solve.model_env(tr, m, p.pc + [goal])
                 rep.violations.append(dict(name=name, env=env, detail=info, goal=X.showb(goal, 4)[:400]))
             else:
                 rep.unknown.append((name, X.showb(goal, 3)[:300]))
